@@ -119,7 +119,18 @@ class World(object):
         h.rng = random.Random(self.seed * 1000003 + i * 1009 + h.inc)
         self.cur = i
         CTX.world = self
-        h.node = self.app.make_node(self, h)
+        try:
+            h.node = self.app.make_node(self, h)
+        except HarnessError:
+            raise
+        except Exception as e:
+            # the process cannot even start on its durable state
+            h.node = None
+            self.net.kernel_close_host(i)
+            self.probe('start_exception_' + type(e).__name__)
+            if self.oracle is not None and hasattr(self.oracle, 'on_start_failed'):
+                self.oracle.on_start_failed(h, e, _origin(e))
+            return 'exc:' + type(e).__name__
         if self.oracle is not None:
             self.oracle.on_start(h)
         return 'started'
